@@ -121,7 +121,6 @@ class TypeChecker:
             ival.expressions = new_expressions
             return ival
         elif isinstance(typ, ast.StructureType):
-            print(ival)
             if not isinstance(ival, ast.NamedExpressionList):
                 raise SemanticError("Invalid struct initialization", ival.loc)
             if len(ival.expressions) != len(typ.fields):
